@@ -17,7 +17,7 @@ EXTENDS Integers, Sequences, FiniteSets, TLC, Json
 CONSTANTS Sets, Gs, Reps
 
 Formats == {"par", "par2"}
-Perms == {"given", "reversed", "rotated"}
+Perms == {"given", "reversed", "rotated", "shuffleA", "shuffleB"}
 Cwds == {"setdir", "parent", "unrelated"}
 Spells == {"rel", "abs", "dotslash", "dblsep", "dotdot", "absdot", "absdblsep", "absdotdot"}
 Vias == {"lib", "cli"}
@@ -29,6 +29,7 @@ Init == cfg = [kind |-> "root"]
 Next == /\ cfg.kind = "root"
         /\ \E f \in Formats, s \in Sets, p \in Perms, g \in Gs, w \in Cwds, sp \in Spells, v \in Vias, k \in Kernels, r \in 1 .. Reps, pr \in Priors :
               /\ ~(w = "unrelated" /\ sp \notin {"abs", "absdot", "absdblsep", "absdotdot"})
+              /\ ~(p \in {"shuffleA", "shuffleB"} /\ (sp # "rel" \/ w # "setdir"))   \* further orders: plain spelling only
               /\ ~(v = "cli" /\ k = "scalar")                  \* the binary uses the CPU's dispatch
               /\ ~(r > 1 /\ (p # "given" \/ sp # "rel"))        \* repetition: the plain configuration only
               /\ ~(pr = "stale" /\ (p # "given" \/ sp # "rel" \/ w # "setdir" \/ r > 1 \/ k = "scalar"))   \* stale output: the plain configuration only
